@@ -577,7 +577,7 @@ def gen_mps(rng, want_central=None):
         psi.pC = (n, n + 1)
         psi.A[psi.pC] = fill(C, rng, cplx)
         recipe["pC"] = [n, n + 1]
-    psi.factor = rng.choice((1, 1.0, 0.5, -2.0, 3, 0.25j if cplx else 4.0))
+    psi.factor = rng.choice((1, 1.0, 0.5, -2.0, 3, 0.25j if cplx else 4.0, 0, 0.0))   # 0: the zero state (what 0 * psi holds)
     recipe["factor"] = repr(psi.factor)
     return psi, recipe
 
@@ -1049,9 +1049,9 @@ def gen_env(rng, kind=None, variant=0):
 # to_dict(meta=...) : the vector embedding used by Krylov solvers
 # ------------------------------------------------------------------------------------------------
 
-def vec_of(x, meta):
+def vec_of(x, meta, **kw):
     yastn = Y()
-    v, m2 = yastn.split_data_and_meta(x.to_dict(level=0, meta=meta), squeeze=True)
+    v, m2 = yastn.split_data_and_meta(x.to_dict(level=0, meta=meta, **kw), squeeze=True)
     return np.asarray(v), m2
 
 
@@ -1216,6 +1216,14 @@ def embed_checks(ctx, ref, x, y, case):
             bad.append("linearity")
         if sumsq(vx) != sumsq(np.asarray(x.data)):
             bad.append("norm: sum |v|^2 != sum |x|^2")
+        if ref.trans == tuple(range(ref.ndim_n)) and x.trans == ref.trans:
+            # nothing is pending: resolve_ops=True has nothing to resolve and must give the very same embedding
+            try:
+                vxr, mxr = vec_of(x, meta, resolve_ops=True)
+                if vxr.shape != vx.shape or not np.array_equal(vxr, vx) or mxr != mx:
+                    bad.append(f"to_dict(meta=..., resolve_ops=True) differs from resolve_ops=False although no transposition is pending (length {vxr.shape} vs {vx.shape})")
+            except Exception as e:
+                bad.append(f"to_dict(meta=..., resolve_ops=True) raised {_exc(e)}")
         if abs(np.linalg.norm(vx) - float(x.norm())) > 1e-9 * (1 + float(x.norm())):
             bad.append("norm vs Tensor.norm()")
         hard = any(len(hf.tree) > 1 for hf in ref.hfs)
